@@ -39,6 +39,8 @@ ACopy == On("Copy") /\ DeadObjs(S) # {} /\ \E o \in LiveVec(S), s \in One :
 ADrop == On("Drop") /\ \E o \in LiveVec(S) : S.held[o] /\ Do(Drop(S, o), Act("Drop", o, 0, 0, 0, <<>>, NoName, ""))
 AWrite == On("Write") /\ \E o \in LiveVec(S) : \E i \in 1..Len(Contents(S, o)), x \in Vals \cup (IF On("Promote") THEN {NoneV, FloatV} ELSE {}), s \in One :
              Do(WriteVec(S, o, i, x, s), Act("Write", o, s, i, x, <<>>, NoName, ""))
+AWriteNone == On("WriteNone") /\ \E o \in LiveVec(S) : \E s \in One :
+             Do(WriteNone(S, o, s), Act("WriteNone", o, s, 0, 0, <<>>, NoName, ""))
 AReadFpV == On("ReadFp") /\ \E o \in LiveVec(S) : Do(ReadFpV(S, o), Act("ReadFpV", o, 0, 0, 0, FpResultV(S, o), NoName, ""))
 ANewTable == On("NewTable") /\ DeadTabs(S) # {} /\ \E srcs \in SrcLists :
              \E sids \in Seqs(Len(srcs) + 1), objs \in ObjSeqs(Len(srcs)) :
@@ -62,8 +64,8 @@ ALookup == On("Lookup") /\ \E t \in LiveTab(S), how \in {"getattr", "row"} :
 AWriteByName == On("WriteByName") /\ \E t \in LiveTab(S) : \E i \in 1..Len(S.cols[t]) :
              \E r \in 1..Len(Contents(S, S.cols[t][i])), x \in Vals, s \in One :
              Do(WriteVec(S, S.cols[t][i], r, x, s), Act("Write", S.cols[t][i], s, r, x, <<>>, "byname", ""))
-AConcatEmpty == On("ConcatEmpty") /\ DeadObjs(S) # {} /\ \E o \in LiveVec(S) : Len(Contents(S, o)) > 0 /\
-             Do(ConcatEmpty(S, o), Act("ConcatEmpty", o, 0, 0, 0, <<>>, NoName, ""))
+AConcatEmpty == On("ConcatEmpty") /\ DeadObjs(S) # {} /\ \E o \in LiveVec(S) : Len(Contents(S, o)) > 0 /\ \E s \in One :
+             Do(ConcatEmpty(S, o, s), Act("ConcatEmpty", o, s, 0, 0, <<>>, NoName, ""))
 AWriteRow == On("WriteRow") /\ \E t \in LiveTab(S) : S.tlen[t] > 0 /\ \E r \in 1..S.tlen[t] :
              \E xs \in [1..Len(S.cols[t]) -> Vals], sids \in Seqs(Len(S.cols[t])) :
              Do(WriteRow(S, t, r, xs, sids), Act("WriteRow", t, r, 0, 0, xs, NoName, ""))
@@ -71,7 +73,7 @@ AObserveV == On("Observe") /\ \E o \in LiveVec(S), f \in ObsV : Do(Observe(S, o,
 AObserveT == On("Observe") /\ \E t \in LiveTab(S), g \in ObsT : Do(Observe(S, t, g), Act("Observe", t, 0, 0, 0, <<>>, g, ""))
 ADir == On("Dir") /\ \E t \in LiveTab(S) : Do(Dir(S, t), Act("Dir", t, 0, 0, 0, <<>>, NoName, ""))
 
-Next == AWriteByName \/ ADir \/ AConcatEmpty \/ AWriteRow \/ AObserveV \/ AObserveT \/ ANewVec \/ AShareVec \/ ADropTuple \/ ACopy \/ ADrop \/ AWrite \/ AReadFpV \/ ANewTable
+Next == AWriteNone \/ AWriteByName \/ ADir \/ AConcatEmpty \/ AWriteRow \/ AObserveV \/ AObserveT \/ ANewVec \/ AShareVec \/ ADropTuple \/ ACopy \/ ADrop \/ AWrite \/ AReadFpV \/ ANewTable
         \/ ASetAttr \/ AColView \/ ADropTable \/ AReadFpT \/ ARename \/ ARenameColumn \/ ALookup
 Spec == Init /\ [][Next]_vars
 Bound == Len(path) < MaxDepth
@@ -81,6 +83,7 @@ InvRegistryExact == RegistryExact(st)
 InvNoSpuriousRefusal == NoSpuriousRefusal(st)
 InvOwnership == OwnershipDisjoint(st)
 InvRect == Rect(st)
+InvSharingJustified == SharingJustified(st)
 InvFpCoherent == FpCoherent(st)
 InvDtypeTruthful == DtypeTruthful(st)
 InvSane == Sane(st)
@@ -108,7 +111,7 @@ WritesLocal == [][ last'.a \in {"Write", "SetAttr"} =>
                     LET tgt == IF last'.a = "Write" THEN Entity(st, last'.x) ELSE Entity(st, last'.x) IN
                     \A x \in (st.live \cap st'.live) \ tgt : ViewOf(st', x) = ViewOf(st, x) ]_vars
 (* read-only / constructing calls never change an existing object's view *)
-PureOps == [][ last'.a \in {"Observe", "NewVec", "ShareVec", "Copy", "ConcatEmpty", "ReadFpV", "ReadFpT", "NewTable", "ColView", "Lookup", "Drop", "DropTuple", "DropTable"} =>
+PureOps == [][ last'.a \in {"Observe", "WriteNone", "NewVec", "ShareVec", "Copy", "ConcatEmpty", "ReadFpV", "ReadFpT", "NewTable", "ColView", "Lookup", "Drop", "DropTuple", "DropTable"} =>
                     \A x \in st.live \cap st'.live : ViewOf(st', x) = ViewOf(st, x) ]_vars
 (* a refused or failed call changes nothing at all (C01, C08) *)
 FailedChangesNothing == [][ last'.res \in {"Refused", "Err"} => st' = st ]_vars
@@ -123,7 +126,7 @@ WritesLocalStep ==
     last'.a \in {"Write", "SetAttr", "WriteRow"} =>
         \A x \in (st.live \cap st'.live) \ Entity(st, last'.x) : ViewOf(st', x) = ViewOf(st, x)
 PureOpsStep ==
-    last'.a \in {"Observe", "NewVec", "ShareVec", "Copy", "ConcatEmpty", "ReadFpV", "ReadFpT", "NewTable", "ColView", "Lookup", "Dir", "Drop", "DropTuple", "DropTable"} =>
+    last'.a \in {"Observe", "WriteNone", "NewVec", "ShareVec", "Copy", "ConcatEmpty", "ReadFpV", "ReadFpT", "NewTable", "ColView", "Lookup", "Dir", "Drop", "DropTuple", "DropTable"} =>
         \A x \in st.live \cap st'.live : ViewOf(st', x) = ViewOf(st, x)
 FailedStep == last'.res \in {"Refused", "Err"} => st' = st
 WriteChangesFpStep ==
